@@ -139,6 +139,8 @@ def main(argv=None):
     if seed:
         import random
         random.Random(seed).shuffle(jobs)
+    if hasattr(mod, 'weight'):
+        jobs.sort(key=lambda j: -mod.weight(j))
     opts = dict(getattr(mod, 'OPTS', {}).get(a.tier, {}))
     args = [(modname, h, list(ha), opts) for h, ha in jobs]
     results = []
@@ -173,16 +175,21 @@ def main(argv=None):
             pass
     # replay up to 3 examples per signature (in parallel: each replay is its own interpreter on the real library)
     from concurrent.futures import ThreadPoolExecutor
-    todo = []
-    for sig, lst in sorted(by_sig.items()):
+    def try_sig(item):
+        sig, lst = item
+        out = []
         for r, f in lst[:3]:
             path = f['replay_path'] if 'replay_path' in f else write_replay(prop, modname, r['harness'], r['args'], f, sig)
-            todo.append((sig, path, f))
-    with ThreadPoolExecutor(max_workers=min(16, max(1, len(todo)))) as tp:
-        outs = list(tp.map(lambda x: run_replay(x[1]), todo))
+            rc, txt = run_replay(path)
+            out.append((path, f, rc, txt))
+            if rc == 1:
+                break
+        return sig, out
     per = {}
-    for (sig, path, f), (rc, out) in zip(todo, outs):
-        per.setdefault(sig, []).append((path, f, rc, out))
+    if by_sig:
+        with ThreadPoolExecutor(max_workers=16) as tp:
+            for sig, out in tp.map(try_sig, sorted(by_sig.items())):
+                per[sig] = out
     for sig, lst in sorted(per.items()):
         hit = next(((p, f, out) for p, f, rc, out in lst if rc == 1), None)
         n = len(by_sig[sig])
@@ -255,6 +262,7 @@ def main(argv=None):
             'shards_truncated_by_budget': truncated,
             'reachability_witnesses': reach,
             'per_harness': per_h,
+            'slowest_shards': sorted(([r['wall_s'], r['harness'], r['args'], r['paths']] for r in results), reverse=True)[:8],
             'other_engines': [{k: v for k, v in e.items() if k not in ('findings', 'samples')} for e in extra],
             'model_validation': val,
             'counterexamples': {'signatures': len(by_sig), 'reproduced_new': len(violations),
